@@ -252,6 +252,7 @@ func (c *AsyncLogger) Start() error {
 	// Worker goroutine to process buffered items
 	go func() {
 		for v := range c.buf {
+			verifPoint("async.worker.recv")
 			if v == c.stop {
 				break
 			}
@@ -267,6 +268,7 @@ func (c *AsyncLogger) Start() error {
 				c.writeToAppenders(MaxLevel, x)
 			default: // for linter
 			}
+			verifPoint("async.worker.done")
 		}
 		close(c.wait)
 	}()
@@ -277,6 +279,7 @@ func (c *AsyncLogger) Start() error {
 // Behavior on full buffer depends on BufferFullPolicy.
 func (c *AsyncLogger) Append(e *Event) {
 	if c.Level.Enable(e.Level) {
+		verifPoint("async.append.before")
 		select {
 		case c.buf <- e:
 		default:
@@ -290,6 +293,7 @@ func (c *AsyncLogger) Append(e *Event) {
 // Write enqueues raw bytes into the buffer.
 // Behavior on full buffer depends on BufferFullPolicy.
 func (c *AsyncLogger) Write(b []byte) {
+	verifPoint("async.write.before")
 	select {
 	case c.buf <- b:
 	default:
@@ -299,6 +303,7 @@ func (c *AsyncLogger) Write(b []byte) {
 
 // onBufferFull handles the case when the async buffer is full.
 func (c *AsyncLogger) onBufferFull(v any) {
+	verifPoint("async.full")
 	switch c.BufferFullPolicy {
 	case BufferFullPolicyDiscardOldest:
 		var exit bool
@@ -314,6 +319,7 @@ func (c *AsyncLogger) onBufferFull(v any) {
 					if e, ok := x.(*Event); ok {
 						PutEvent(e)
 					}
+					verifPoint("async.dropoldest.after")
 				default: // for linter
 				}
 			}
@@ -336,6 +342,7 @@ func (c *AsyncLogger) onBufferFull(v any) {
 // Stop gracefully shuts down the async logger.
 func (c *AsyncLogger) Stop() {
 	c.buf <- c.stop
+	verifPoint("async.stop.marker")
 	<-c.wait
 	close(c.buf)
 }
